@@ -525,6 +525,18 @@ func c13Run(c *core.Ctx) {
 			enum(ss, rr, false)
 		}
 	}
+	// the same graphs under identifiers that mean something to a format ("Default" is the style SSA players fall back
+	// on, "default" / "*Default" its look-alikes): what Optimize keeps depends on reachability, never on a name
+	for _, names := range [][]string{{"Default", "b", "c"}, {"a", "Default", "*Default"}, {"default", "Default", "c"}} {
+		if !expired {
+			enum(names, allR, false)
+		}
+		for i := range names {
+			if !expired {
+				enum([]string{names[i]}, allR[:1], false)
+			}
+		}
+	}
 	if expired {
 		return
 	}
@@ -593,7 +605,7 @@ func init() {
 		ID: "C13", Level: "model_checking",
 		Rule: "states = reference graphs (cue->style, run->style, cue->region, region->style, style->parent forest, unused and shared definitions); transitions = the real Optimize / RemoveStyling on a fresh real list built from the graph, compared with a reachability closure computed by the harness (kept ids, every remaining reference resolves, cues untouched, idempotent, empty list untouched) and with a reflective no-styling-left walk; conversion sub-check: the optimized list is written by every writer and read back (see C13 conv); non-trivial = at least one definition is unreachable",
 		Scope: map[core.Tier]string{
-			core.Quick:    "ALL graphs over 3 styles (all 16 parent forests) x 2 regions (all 16 style refs) and over every smaller definition set (0..3 styles x 0..2 regions, incl. none of either kind) x cue lists: empty, every single cue (style x region x 1 run), every 2-run cue, half of all cue pairs; inheritance chains of depth 4-5 reached through each edge kind; loose references (an object of the identifier that is not the table's, identifier defined or not) as cue style, run style, cue region and a region definition's style x 16 forests, alone and next to an ordinary cue",
+			core.Quick:    "ALL graphs over 3 styles (all 16 parent forests) x 2 regions (all 16 style refs) and over every smaller definition set (0..3 styles x 0..2 regions, incl. none of either kind) x cue lists: empty, every single cue (style x region x 1 run), every 2-run cue, half of all cue pairs; inheritance chains of depth 4-5 reached through each edge kind; the same single-cue graphs under the identifiers Default / default / *Default; loose references (an object of the identifier that is not the table's, identifier defined or not) as cue style, run style, cue region and a region definition's style x 16 forests, alone and next to an ordinary cue",
 			core.Thorough: "same with every cue having 1 or 2 runs and all cue pairs",
 		},
 		Assumptions: []string{"Go toolchain and standard library", "definitions are stored under their own identifier and every reference points into the maps (property wording: keyed by their identifier)", "reference reachability refops.Reach"},
